@@ -35,7 +35,7 @@ type harness struct {
 	leaked    []types.SiacoinOutputID
 }
 
-var relations = []string{"same", "behind", "fork-ok", "fork-stale", "unknown"}
+var relations = []string{"same", "behind", "fork-ok", "fork-stale", "unknown", "wallet-behind"}
 var kinds = []string{"form", "renew", "refresh"}
 
 func (h *harness) usableContract() bool {
@@ -59,6 +59,13 @@ func (h *harness) prepare(s *script) {
 		if !h.usableContract() {
 			panic("could not form a contract to renew")
 		}
+	}
+	if s.Relation == "wallet-behind" && (w.rel != "wallet-behind" || !w.hasFreshOutput()) {
+		// a successful formation first (the host then holds a fresh change output
+		// next to the fresh output it is paid), then let its wallet fall behind
+		w.resync()
+		h.attempt(script{Kind: "form", Relation: "same", Fault: "none"})
+		w.rel = ""
 	}
 	w.setRelation(s.Relation)
 	if s.Unconf {
@@ -159,7 +166,7 @@ func (h *harness) report(s script, o *outcome, fs []failure) {
 
 func runC16(c *Ctx) {
 	res := c.Res
-	res.Rule = "one attempt = (form|renew|refresh) x basis relation (same tip, renter 3 blocks behind, stale fork the host applied once, stale fork the host only stored, unknown fork) x fault (stream cut after each of the 4 messages, dial/pool/write failure, corrupted request: wrong/unknown basis, missing parents, underfunded, duplicated inputs, invalid parameters, bad challenge, unknown contract, wrong key; corrupted signatures; host not accepting / out of funds; corrupted host answers) with confirmed or unconfirmed renter inputs and one- or two-output funding; real renter functions against the real host over loopback TCP with separate wallets; non-trivial := the host handler was reached; distinct by script and host call trace"
+	res.Rule = "one attempt = (form|renew|refresh) x basis relation (same tip, renter 3 blocks behind, stale fork the host applied once, stale fork the host only stored, unknown fork, host wallet 3 blocks behind its own chain manager) x fault (stream cut after each of the 4 messages, dial/pool/write failure, corrupted request: wrong/unknown basis, missing parents, underfunded, duplicated inputs, invalid parameters, bad challenge, unknown contract, wrong key; corrupted signatures; host not accepting / out of funds; corrupted host answers) with confirmed or unconfirmed renter inputs and one- or two-output funding; real renter functions against the real host over loopback TCP with separate wallets; non-trivial := the host handler was reached; distinct by script and host call trace"
 	h := &harness{c: c, shrink: true, fails: map[string]int{}}
 
 	if c.Replay != "" {
@@ -206,6 +213,9 @@ func runC16(c *Ctx) {
 		{Kind: "form", Relation: "same", Fault: "req-unknown-basis"},
 		{Kind: "renew", Relation: "same", Fault: "dial-fail"},
 		{Kind: "refresh", Relation: "same", Fault: "dial-fail"},
+		{Kind: "form", Relation: "wallet-behind", Fault: "none"},
+		{Kind: "renew", Relation: "wallet-behind", Fault: "none"},
+		{Kind: "refresh", Relation: "wallet-behind", Fault: "none", Partial: true},
 	} {
 		h.attempt(s)
 	}
@@ -239,7 +249,7 @@ func runC16(c *Ctx) {
 	// more committed runs: every kind in every relation that can succeed, with
 	// one- and two-output funding, confirmed and unconfirmed renter inputs, the
 	// final response delivered, lost or corrupted
-	for _, rel := range []string{"same", "behind", "fork-ok"} {
+	for _, rel := range []string{"same", "behind", "fork-ok", "wallet-behind"} {
 		for _, kind := range kinds {
 			for i, fault := range []string{"none", "none", "cut4", "none", "final-bad-sig", "none"} {
 				h.attempt(script{Kind: kind, Relation: rel, Fault: fault, Partial: i%2 == 0, Large: i == 1 || i == 2, Unconf: i == 3 && rel == "same"})
